@@ -693,13 +693,13 @@ Corollary roundtrip_ok :
   forall sm refseq seq quals ops start,
     valid_sm sm -> Forall (fun o => 0 < snd o) ops -> read_len ops = len seq ->
     1 <= start -> start + ref_len ops <= len refseq + 1 ->
-    cigar_to_features true refseq seq quals ops start <> None ->
+    cigar_to_features true refseq seq (writer_quals seq quals) ops start <> None ->
     exists s, roundtrip sm refseq seq quals ops start = Some (simplify (norm_ops ops), s)
               /\ eq_nocase_list s seq = true.
 Proof.
   intros sm refseq seq quals ops start Hsm Hpos Hrl Hstart Href Hc. unfold roundtrip.
-  destruct (cigar_to_features true refseq seq quals ops start) as [ws|] eqn:Hw; [|congruence].
-  destruct (features_roundtrip sm refseq seq quals ops start ws Hsm Hpos Hrl Hstart Href Hw)
+  destruct (cigar_to_features true refseq seq (writer_quals seq quals) ops start) as [ws|] eqn:Hw; [|congruence].
+  destruct (features_roundtrip sm refseq seq (writer_quals seq quals) ops start ws Hsm Hpos Hrl Hstart Href Hw)
     as (fs & s & He & Hs & Hq & Hcg).
   rewrite He. destruct (len seq =? 0) eqn:E0.
   - (* SEQUENCE_IS_MISSING: the read is empty, and so is the reconstruction *)
